@@ -407,10 +407,13 @@ def _message(E, mod, A, vc):
             return fl
 
         def fields(self):
-            raise EN.Unsupported("the plan must follow sorted_fields(), not declaration order")
+            # the abstract message offers its fields in field-number order only; asking for declaration order is the violation itself
+            EN.cur().oblige("post:plan-follows-sorted_fields() (the generator asked for fields(): declaration order)", z3.BoolVal(False))
+            raise EN.StopPath()
 
         def number_to_field(self):
-            raise EN.Unsupported("the plan must follow sorted_fields(), not declaration order")
+            EN.cur().oblige("post:plan-follows-sorted_fields() (the generator asked for number_to_field())", z3.BoolVal(False))
+            raise EN.StopPath()
     msg = Msg()
 
     def mf(self, t, chain, is_encode, i):
